@@ -17,15 +17,26 @@ RESERVED = ['table', 'enum', 'ref', 'note', 'indexes', 'project', 'tablegroup', 
 class Namer:
     """unique identifiers in several flavours"""
 
-    def __init__(self, rng, flavours=('bare',)):
+    def __init__(self, rng, flavours=('bare',), override=None):
         self.rng = rng
         self.n = 0
         self.flavours = flavours
+        self.override = override or {}    # prefix -> flavour (wins over the caller's choice)
+        self.reserved_used = set()
 
     def __call__(self, prefix, flavour=None):
         self.n += 1
         f = flavour or self.rng.choice(self.flavours)
+        if prefix in self.override:
+            f = self.override[prefix]
         base = f'{prefix}{self.n}'
+        if f.startswith('reserved:'):
+            # a reserved word used as a name: once per document (names must stay unique)
+            w = f.split(':', 1)[1]
+            if w not in self.reserved_used:
+                self.reserved_used.add(w)
+                return w
+            f = 'bare'
         if f == 'bare':
             return base + self.rng.choice(['', '_', '_x', 'Z'])
         if f == 'upper':
@@ -124,8 +135,10 @@ def rand_type(rng, nm, doc, enum_p=0.25):
 
 
 def random_doc(rng, size='small', text_profile='plain', flavours=CORE_FLAVOURS, props=False,
-               comments=True, composite_inline=False):
-    nm = Namer(rng, flavours)
+               comments=True, ml_small_notes=True, override=None):
+    """ml_small_notes: allow multi-line notes on columns / indexes / enum items"""
+    nm = Namer(rng, flavours, override)
+    small_ml = 0.3 if ml_small_notes else 0.0
     tx = Texts(rng, text_profile)
     doc = am.Doc(allow_properties=props)
     big = {'tiny': 1, 'small': 2, 'medium': 4, 'large': 8}[size]
@@ -138,7 +151,7 @@ def random_doc(rng, size='small', text_profile='plain', flavours=CORE_FLAVOURS, 
     for _ in range(rng.randint(0, big)):
         e = am.Enum(rng.choice(schemas), nm('e'), comment=maybe(0.3 if comments else 0, lambda: tx.comment()))
         for _ in range(rng.randint(1, 4)):
-            e.items.append(am.EnumItem(nm('ei'), note=maybe(0.3, lambda: tx.note('ein')),
+            e.items.append(am.EnumItem(nm('ei'), note=maybe(0.3, lambda: tx.note('ein', small_ml)),
                                        comment=maybe(0.25 if comments else 0, lambda: tx.comment())))
         doc.enums.append(e)
     # tables
@@ -166,8 +179,8 @@ def random_doc(rng, size='small', text_profile='plain', flavours=CORE_FLAVOURS, 
             c.explicit_null = (not c.not_null) and rng.random() < 0.1
             c.autoinc = rng.random() < 0.15
             c.default = maybe(0.4, lambda: rand_default(rng, tx))
-            c.note = maybe(0.3, lambda: tx.note('cn'))
-            c.comment = maybe(0.2 if comments else 0, lambda: tx.line('cc'))  # columns: trailing, one line
+            c.note = maybe(0.3, lambda: tx.note('cn', small_ml))
+            c.comment = maybe(0.2 if comments else 0, lambda: tx.comment())
             if props:
                 for _ in range(rng.choice([0, 0, 1, 2])):
                     c.props.append((nm('ck'), tx.line('cv')))
@@ -181,7 +194,7 @@ def random_doc(rng, size='small', text_profile='plain', flavours=CORE_FLAVOURS, 
             ix.name = maybe(0.4, lambda: tx.line('ixn'))
             ix.unique = rng.random() < 0.3
             ix.type = maybe(0.4, lambda: rng.choice(INDEX_TYPES))
-            ix.note = maybe(0.3, lambda: tx.note('ixnote'))
+            ix.note = maybe(0.3, lambda: tx.note('ixnote', small_ml))
             ix.comment = maybe(0.2 if comments else 0, lambda: tx.comment())
             t.indexes.append(ix)
         if pk_layout == 'index':
